@@ -269,7 +269,7 @@ class Resolver:
                     for match in self.__glob(subnode, remainder):
                         if match not in matches:
                             matches.append(match)
-                except ChildResolverError:
+                except ResolverError:
                     pass
             return matches
 
